@@ -2,6 +2,8 @@ pub mod solver;
 pub mod unify;
 pub mod builtins;
 pub mod parsers;
+pub mod rename;
+pub mod queries;
 
 use crate::driver::Property;
 
@@ -33,6 +35,9 @@ pub fn by_id(id: &str) -> Option<Box<dyn Property>> {
         "C19" => Box::new(parsers::ParserProp { id: "C19", aspect: parsers::PAspect::RoundTrip }),
         "C20" => Box::new(parsers::ParserProp { id: "C20", aspect: parsers::PAspect::Context }),
         "C21" => Box::new(parsers::ParserProp { id: "C21", aspect: parsers::PAspect::File }),
+        "C10" => Box::new(rename::RenameProp { id: "C10" }),
+        "C22" => Box::new(queries::QueryProp { id: "C22", aspect: queries::QAspect::History }),
+        "C23" => Box::new(queries::QueryProp { id: "C23", aspect: queries::QAspect::Timeout }),
         _ => return None,
     })
 }
